@@ -960,6 +960,11 @@ func runPkg(p *Pkg, d *Desc, job *Job, res *Result, kinds map[string]bool) {
 				viol(m.Name, "not-implemented", "MethodNotImplemented carries %q, expected %q", ni.Method, full)
 			}
 			res.Counters["not_implemented_checks"]++
+			if len(m.In.Fields) == 0 {
+				onewayBarrier(rctx, conn, full, nil, "a call to the not overridden method "+m.Name, viol, m.Name, res.Counters)
+			} else {
+				onewayBarrier(rctx, conn, full, json.RawMessage(`{}`), "a call to the not overridden method "+m.Name, viol, m.Name, res.Counters)
+			}
 			px.take()
 			rcancel()
 			continue
@@ -1340,6 +1345,8 @@ func runPkg(p *Pkg, d *Desc, job *Job, res *Result, kinds map[string]bool) {
 			}
 			h.mu.Unlock()
 			res.Counters["invalid_parameter_checks"] += 2
+			onewayBarrier(rctx, conn, full, json.RawMessage(`[1,2,3]`), "a call with undecodable parameters", viol, m.Name, res.Counters)
+			onewayBarrier(rctx, conn, full, nil, "a call without parameters", viol, m.Name, res.Counters)
 			px.take()
 		}
 		rcancel()
@@ -1352,6 +1359,21 @@ func runPkg(p *Pkg, d *Desc, job *Job, res *Result, kinds map[string]bool) {
 		viol("NopeNotThere", "method-not-found", "an unknown method was answered with %T %v, expected MethodNotFound(NopeNotThere)", e, e)
 	}
 	res.Counters["method_not_found_checks"]++
+	onewayBarrier(rctx, conn, d.Name+".NopeNotThere", nil, "a call to an unknown method", viol, "NopeNotThere", res.Counters)
 	rcancel()
 	res.Counters["packages_executed"]++
+}
+
+// onewayBarrier: a oneway call that ends in a service-level error (method not implemented / not found, undecodable
+// parameters) must stay unanswered: the next ordinary call on the connection gets its own reply.
+func onewayBarrier(ctx context.Context, conn *varlink.Connection, method string, params interface{}, what string, viol func(string, string, string, ...interface{}), name string, counters map[string]int64) {
+	if _, err := conn.Send(ctx, method, params, varlink.Oneway); err != nil {
+		viol(name, "oneway", "%s: Send with the oneway flag failed: %v", what, err)
+		return
+	}
+	var vendor string
+	if err := conn.GetInfo(ctx, &vendor, nil, nil, nil, nil); err != nil {
+		viol(name, "oneway", "%s sent oneway; the next call on the connection (GetInfo) returned %T %v - the oneway call was answered", what, err, err)
+	}
+	counters["oneway_service_error_barriers"]++
 }
